@@ -429,7 +429,9 @@ func labels(cs []call) []string {
 
 // top-level Handle patterns
 var topPats = []xml.Name{nA, nC, {Local: "a"}, {Space: "n1"}, {Space: "n2"}, {Local: "b"}, {Space: ns}}
-var topIn = []xml.Name{nA, nB, nC, nD, {Space: "n2", Local: "b"}, {Space: "n3", Local: "a"}, {Space: "n1", Local: "message"}, {Space: ns, Local: "message"}, {Space: ns, Local: "presence"}, {Space: ns, Local: "a"}}
+var topIn = []xml.Name{nA, nB, nC, nD, {Space: "n2", Local: "b"}, {Space: "n3", Local: "a"}, {Space: "n1", Local: "message"}, {Space: ns, Local: "message"}, {Space: ns, Local: "presence"}, {Space: ns, Local: "a"},
+	// named like stanzas, but not in the namespace the mux was created with: not stanzas of this mux
+	{Space: "n1", Local: "iq"}, {Space: stanza.NSServer, Local: "iq"}, {Space: stanza.NSServer, Local: "message"}, {Space: "n3", Local: "presence"}}
 
 func topBody(c *nd.Ctx) nd.Result {
 	reg := map[xml.Name]bool{}
@@ -442,10 +444,28 @@ func topBody(c *nd.Ctx) nd.Result {
 	}
 	in := topIn[c.Choose(len(topIn), "element")]
 	prog := c.Choose(4, "read-program")
-	c.Note("Handle patterns %v, element %v", regList, in)
+	stanzaHandlers := c.Choose(2, "wildcard-stanza-handlers-registered") == 1
+	c.Note("Handle patterns %v, element %v, wildcard stanza handlers registered: %v", regList, in, stanzaHandlers)
 	var called []xml.Name
 	var readErrs []string
 	var opts []mux.Option
+	if stanzaHandlers {
+		// handlers for every stanza of the mux's namespace: elements of other
+		// namespaces never reach them, whatever they are called
+		for _, typ := range []string{"get", "set", "result", "error"} {
+			opts = append(opts, mux.IQFunc(stanza.IQType(typ), xml.Name{}, func(iq stanza.IQ, t xmlstream.TokenReadEncoder, start *xml.StartElement) error {
+				called = append(called, xml.Name{Space: "stanza-handler", Local: "iq"})
+				return nil
+			}))
+		}
+		opts = append(opts, mux.MessageFunc("", xml.Name{}, func(msg stanza.Message, t xmlstream.TokenReadEncoder) error {
+			called = append(called, xml.Name{Space: "stanza-handler", Local: "message"})
+			return nil
+		}), mux.PresenceFunc("", xml.Name{}, func(pr stanza.Presence, t xmlstream.TokenReadEncoder) error {
+			called = append(called, xml.Name{Space: "stanza-handler", Local: "presence"})
+			return nil
+		}))
+	}
 	for _, p := range regList {
 		p := p
 		opts = append(opts, mux.HandleFunc(p, func(t xmlstream.TokenReadEncoder, start *xml.StartElement) error {
@@ -468,6 +488,11 @@ func topBody(c *nd.Ctx) nd.Result {
 		return res
 	}
 	var want []xml.Name
+	if stanzaHandlers && in.Space == ns && (in.Local == "message" || in.Local == "presence" || in.Local == "iq") {
+		// a stanza of this mux goes to the stanza handlers (the message-ns and
+		// presence-ns parts judge those); only non-stanzas are judged here
+		return nd.Result{Skip: true}
+	}
 	for _, cand := range []xml.Name{in, {Local: in.Local}, {Space: in.Space}} {
 		if reg[cand] {
 			want = []xml.Name{cand}
